@@ -196,6 +196,8 @@ class Runner:
                 "w1": rng.choice([0.0, 0.5, -0.5]), "w2": rng.choice([0.0, 0.25]),
             }
             plan["knobs"]["tau"] = rng.choice([0.25, 0.5, 0.005, 1.0])
+            if rng.random() < 0.6:
+                plan["knobs"]["log_alpha0"] = rng.choice([-3.0, -1.0, 0.0, 0.75])   # exp(.) != the constructor's initial_alpha = 0.2
         if cls["n"] > 1 and (prop == "C12" or rng.random() < 0.15):
             plan["faults"].append({"kind": "node_perturb", "node": rng.randrange(cls["n"]), "at_op": rng.randint(1, n_iter), "what": "start_state", "to": rng.randrange(cls["S"])})
         return plan
@@ -256,7 +258,11 @@ class Runner:
         qf1 = TableCritic(jnp.asarray(c["q1"], dtype=float), jnp.asarray(c["w1"], dtype=float))
         qf2 = TableCritic(jnp.asarray(c["q2"], dtype=float), jnp.asarray(c["w2"], dtype=float))
         q_opt_state = self.algo0.q_optimizer.init((eqx.filter(qf1, eqx.is_inexact_array), eqx.filter(qf2, eqx.is_inexact_array)))
-        return eqx.tree_at(lambda s: (s.qf1, s.qf2, s.qf1_target, s.qf2_target, s.q_opt_state), state, (qf1, qf2, qf1, qf2, q_opt_state))
+        state = eqx.tree_at(lambda s: (s.qf1, s.qf2, s.qf1_target, s.qf2_target, s.q_opt_state), state, (qf1, qf2, qf1, qf2, q_opt_state))
+        if "log_alpha0" in plan["knobs"]:
+            # a run continued from a state whose temperature is not the constructor's initial value (e.g. autotuned earlier, now frozen)
+            state = eqx.tree_at(lambda s: s.log_alpha, state, jnp.asarray(plan["knobs"]["log_alpha0"], dtype=state.log_alpha.dtype).reshape(jnp.shape(state.log_alpha)))
+        return state
 
     def _node_bufs(self, state):
         n, cap = self.n, self.cap
